@@ -206,10 +206,14 @@ def parseOp (st : St) (ws : List String) : Option NOp :=
   | ["slitc", d, k] => do
     let k ← num k
     if k < lits.length then pure (.flat (.sLit (← idx 0 d) (lits.getD k []))) else none
-  | ["scap", d, n] => do pure (.sCap (← idx 0 d) (← num n))
-  | ["slitu", d, h] => do pure (.sLitU (← idx 0 d) (← fromHex h))
-  | ["sconst", d] => do pure (.sConst (← idx 0 d))
-  | ["sconstm", d] => do pure (.sConst (← idx 0 d))
+  | ["scap", d, n] => do pure (.flat (.gNew (← idx 0 d) tagStr false [] (← num n)))
+  | ["slitu", d, h] => do pure (.flat (.gNew (← idx 0 d) tagStrU true (← fromHex h) 0))
+  | ["sconst", d] => do
+    let d ← idx 0 d
+    pure (.flat (.gEdit d (constSkip st d) (viewVal st d)))
+  | ["sconstm", d] => do
+    let d ← idx 0 d
+    pure (.flat (.gEdit d (constSkip st d) (viewVal st d)))
   | ["sdetach", d] => do pure (.flat (.sEdit (← idx 0 d) 2 0 0))
   | ["sapps", d, s] => do pure (.flat (.sAppend (← idx 0 d) (viewVal st (← idx 0 s))))
   | ["spluss", d, s] => do pure (.flat (.sAppend (← idx 0 d) (viewVal st (← idx 0 s))))
@@ -218,13 +222,13 @@ def parseOp (st : St) (ws : List String) : Option NOp :=
   | ["spreps", d, s] => do pure (.flat (.sPrepend (← idx 0 d) (viewVal st (← idx 0 s))))
   | ["supper", d] => do
     let d ← idx 0 d
-    pure (.sEditTo d ((viewVal st d).map upperByte))
-  | ["vctors", d, h] => do pure (.boxCtor (← idx 1 d) tagVStr (← fromHex h))
-  | ["vctorl", d, x] => do pure (.boxCtor (← idx 1 d) tagVList [← num x])
-  | ["vctora", d, x] => do pure (.boxCtor (← idx 1 d) tagVArr [← num x])
-  | ["vctorm", d, k, x] => do pure (.boxCtor (← idx 1 d) tagVMap [← num k, ← num x])
-  | ["xctors", d, h] => do pure (.boxCtor (← idx 2 d) tagXText (← fromHex h))
-  | ["xctore", d, h] => do pure (.boxCtor (← idx 2 d) tagXElem (← fromHex h))
+    pure (.flat (.gEdit d false ((viewVal st d).map upperByte)))
+  | ["vctors", d, h] => do pure (.flat (.gNew (← idx 1 d) tagVStr false (← fromHex h) 0))
+  | ["vctorl", d, x] => do pure (.flat (.gNew (← idx 1 d) tagVList false [← num x] 0))
+  | ["vctora", d, x] => do pure (.flat (.gNew (← idx 1 d) tagVArr false [← num x] 0))
+  | ["vctorm", d, k, x] => do pure (.flat (.gNew (← idx 1 d) tagVMap false [← num k, ← num x] 0))
+  | ["xctors", d, h] => do pure (.flat (.gNew (← idx 2 d) tagXText false (← fromHex h) 0))
+  | ["xctore", d, h] => do pure (.flat (.gNew (← idx 2 d) tagXElem false (← fromHex h) 0))
   | ["vpushv", d, s] => do pure (.vPushV (← idx 1 d) (← idx 1 s))
   | ["vgetv", d, s, k] => do pure (.vGetV (← idx 1 d) (← idx 1 s) (← num k))
   | ["xaddc", d, s] => do pure (.xAddC (← idx 2 d) (← idx 2 s))
